@@ -58,6 +58,7 @@ Definition vec_remove_at (i : nat) (l : list N) : list N := remove_at i l.
 Definition codec_mapmv := cmap_codec mvreg_codec.
 Definition codec_mapor := cmap_codec orswot_codec.
 Definition codec_mapmm := cmap_codec (cmap_codec mvreg_codec).
+Definition codec_mapmo := cmap_codec (cmap_codec orswot_codec).
 Definition codec_glist := glist_codec z_codec.
 Definition codec_list := clist_codec z_codec.
 Fixpoint json_size (j : json) : nat :=
